@@ -14,6 +14,7 @@ def make_wl(rng, k):
     mode = MODES[i % 4]
     spec["groups"] = rng.choice([2, 3, 5, 12])
     spec["group_missing"] = rng.choice([0, 3, 5])
+    spec["group_naming"] = (i // 2) % 4
     spec["n_exp"] = 1
     opts["read_group"] = mode
     opts["counts_format"] = FORMATS[(i // 4) % 4]
